@@ -12,6 +12,7 @@ EXPLANATION = (
     "= latency + calculate_busy (+ Uniform(0, jitter) from the passed RNG); (R7) calculate_busy has the shape (length*8)/bitrate divided in floating point, zero for bitrate 0. "
     '(R8) a channel is created idle with an empty queue and a zero byte counter. '
     "(R4 also: the unbusy notification is scheduled before the message's exit event.) "
+    "(R9, shared with C08.R1) the two directions of a connection get distinct channel instances - busy state and queue are per direction. "
     "Decides these necessary conditions only; not numeric "
     "delays or behaviour over traffic patterns.")
 ASSUMPTIONS = ["VecDeque::push_back/pop_front are opposite ends", "a scheduled event is delivered (C01/C02)"]
@@ -732,3 +733,6 @@ def run(ctx):
     r5_unbusy(ctx)
     r8_created_idle(ctx)
     r6_duration(ctx)
+    # the busy state and the queue are per direction: the two directions of a connection get distinct channel instances
+    from .C08 import r1_cross_wiring
+    r1_cross_wiring(ctx, rule='C07.R9')
